@@ -366,6 +366,38 @@ def run(ck, P):
           "the loop advances %s but the rewind after a removal decrements %s: a per-iteration copy is rewound, the position is not — the entry that back-shift "
           "deletion moved into the visited slot is skipped" % ([S(e.lhs) for e in steps], [S(e.lhs) for e in rewinds]))
 
+    # remove deletes the named entry or nothing: the slot handed to the removal is occupied — known from a test of its key, or because the
+    # lookup was asked for entries only (find_empty == false) and keeps that promise
+    mr_ = P.fn("m_map_remove", M)
+    ck.analysed(mr_)
+    hef = P.fn("hashmap_entry_find", M)
+    entries_only = False
+    if any(p_["name"] == "find_empty" for p_ in hef.params):
+        entries_only = True
+        for path in hef.paths(prune=False):
+            feas, _env, a_, evs_ = rules.simulate(hef, path, preset={"find_empty": 0})
+            if not feas:
+                continue
+            rets_ = [e for e in evs_ if e.kind == "ret" and e.e is not None]
+            if rets_ and strip(rets_[-1].e).get("k") != "null" and cval(rets_[-1].e) != 0 and rules.const_eval(rets_[-1].e, {"find_empty": 0}, a_) != 0 and \
+                    any(v_ is False and k_.endswith("->key") for k_, v_ in a_.items()) and not any(k_.startswith("(strcmp(") and v_ is True or
+                                                                                              k_.startswith("strcmp(") and v_ is False for k_, v_ in a_.items()):
+                entries_only = False          # a slot known to be empty is handed back although entries only were asked for
+    badr = []
+    for e in mr_.calls():
+        if e.callee not in ("clear_elem",) or len(e.args) < 2:
+            continue
+        slot = S(e.args[1])
+        fct = X.facts(mr_, e)
+        srcs_ = rules.value_sources(mr_, slot) if strip(e.args[1])["k"] == "var" else {slot}
+        from_find = entries_only and srcs_ and all(x_.startswith("hashmap_entry_find(") and x_.rstrip(")").endswith(", 0") for x_ in srcs_) and has(fct, slot)
+        if not (has(fct, "%s->key" % slot) or from_find):
+            badr.append((slot, e.line, sorted(srcs_)))
+    ck.ob("C05.3-LENGTH", mr_.site("removes an occupied slot only"), not badr,
+          "m_map_remove hands clear_elem a slot known to hold an entry" if not badr else
+          "m_map_remove calls clear_elem(%s) at line %d without knowing that the slot holds an entry (it comes from %s): removing an absent key clears an "
+          "empty slot — it reports success, decrements the length and calls the value destructor with NULL" % badr[0])
+
     ck.rule("C05.9-FLAG-BITS", "R-FLAG-BITS: m_map_flags are single distinct bits (every flag combination means what its parts mean)", floor=1)
     from props.flags import flag_bits
     flag_bits(ck, P, "C05.9-FLAG-BITS", "m_map_flags", M)
